@@ -2,6 +2,7 @@ SPECIFICATION TraceSpec
 CONSTANTS
   MaxI = 2147483647
   TsDivIsFloor = TRUE
-INVARIANTS FoldOK
+  CmpShiftChecked = TRUE
+INVARIANTS FoldOK ShiftOK
 POSTCONDITION AllConsumed
 CHECK_DEADLOCK FALSE
